@@ -191,6 +191,9 @@ func runC17(p *P, r *R) {
 			}
 		})
 	}
+	// the rebuild-interval timer is re-armed for every attempt
+	isWatcher := func(f *ssa.Function) bool { return inFns(f, watchers) }
+	r.count("R17.1", "rebuild-interval waits that are repeated", timerRearmed(p, r, "R17.1", isWatcher), 1)
 	if cl := p.fn("(*SessionManager).Close"); cl != nil {
 		var cancel, wait ssa.Instruction
 		allInstrs(cl, func(in ssa.Instruction) {
